@@ -51,6 +51,16 @@ def check_typing(ctx, case):
             ctx.fail("{} on {!r} rotated by {}: a record annotated topology={!r} is typed {} instead of {}".format(
                 cls.__name__, wd, r, topo, got[:3], base[:3]), dict(case, rots=[r]))
             break
+    # the matcher asked directly, with the range spelt out (`pos=0, endpos=len`, what the defaults mean): the same
+    # match at every rotation — `endpos` bounds where a match may start, not how far it may run
+    rx_ = boot.DNARegex(cls.structure())
+    for r in (rots[:3] + rots[-3:]) if rots else []:
+        rec_ = impl.CircularRecord(impl.Seq(gen.rot(wd, r)), id="m")
+        m0, m1 = rx_.search(rec_), rx_.search(rec_, pos=0, endpos=len(rec_))
+        if (m0 is None) != (m1 is None) or (m0 is not None and m0.span() != m1.span()):
+            ctx.fail("{!r} rotated by {}: search(record) gives {} but search(record, pos=0, endpos=len(record)) gives {}".format(
+                wd, r, m0 and m0.span(), m1 and m1.span()), dict(case, rots=[r]))
+            break
     # a plasmid read from a FASTA file is a plain SeqRecord that says nothing about its topology: the library takes
     # it for circular, so its verdict is the circular record's, wherever the file happens to start
     for r in (rots[:2] + rots[-2:]) if rots else []:
